@@ -850,6 +850,10 @@ class RecurrencePlot(Cached):
 
         :return number: the recurrence probability
         """
+        if self.sparse_rqa:
+            raise NotImplementedError(
+                "Sequential RQA mode is enabled: the recurrence matrix is "
+                "not stored in memory.")
         R = self.recurrence_matrix()
         N = self.N
         SUM = np.sum(np.diag(R, lag))
@@ -1301,6 +1305,10 @@ class RecurrencePlot(Cached):
         :return: the frequency distribution of white vertical line lengths
             :math:`P(w-1)`.
         """
+        if self.sparse_rqa:
+            raise NotImplementedError(
+                "Sequential RQA mode is enabled: the recurrence matrix is "
+                "not stored in memory.")
         R = self.recurrence_matrix()
         n_time = self.N
         white_vertline = np.zeros(n_time, dtype=NODE)
@@ -1397,6 +1405,10 @@ class RecurrencePlot(Cached):
         :return [[number]]: the list of twins for each state vector in the time
             series.
         """
+        if self.sparse_rqa:
+            raise NotImplementedError(
+                "Sequential RQA mode is enabled: the recurrence matrix is "
+                "not stored in memory.")
         if self.silence_level <= 1:
             print("Finding twins based on recurrence matrix...")
 
